@@ -506,7 +506,7 @@ def run(ctx, only_cases=None):
     broken = None
     try:
         pinfo = vlib.coq_properties("C14")
-        vlib.proof_coverage(ctx, pinfo, "make -C coq Properties/C14.vo && coqc Properties/C14.v (Print Assumptions audit)", extra_obligations=10)
+        vlib.proof_coverage(ctx, pinfo, "make -C coq Properties/C14.vo && coqc Properties/C14.v (Print Assumptions audit)", extra_obligations=11)
     except vlib.Broken as b:
         broken = b
     rng = ctx.rng
